@@ -86,7 +86,7 @@ macro_rules! from_samples_h {
 from_samples_h!(c03_from_samples_2, 2);
 //@ prop=C03 tier=quick cost=90 fns="muxer::mp4::SampleTables::from_samples,total_duration" bound="3 samples, all u64 pts/dts with |pts-dts| < 2^31, all durations/fallbacks" unwind=8
 from_samples_h!(c03_from_samples_3, 3);
-//@ prop=C03 tier=thorough cost=30 fns="muxer::mp4::SampleTables::from_samples,total_duration" bound="1 sample" unwind=8
+//@ prop=C03 tier=thorough cost=16 fns="muxer::mp4::SampleTables::from_samples,total_duration" bound="1 sample" unwind=8
 from_samples_h!(c03_from_samples_1, 1);
 
 // ---------------------------------------------------------------------------
@@ -153,7 +153,7 @@ macro_rules! stts_h {
         });
     };
 }
-//@ prop=C03 tier=quick cost=60 fns="muxer::mp4::build_stts_box" bound="3 durations, all u32 values" unwind=42
+//@ prop=C03 tier=quick cost=232 fns="muxer::mp4::build_stts_box" bound="3 durations, all u32 values" unwind=42
 stts_h!(c03_stts_3, 3, 42);
 //@ prop=C03 tier=thorough cost=100 fns="muxer::mp4::build_stts_box" bound="4 durations, all u32 values" unwind=50
 stts_h!(c03_stts_4, 4, 50);
@@ -196,12 +196,12 @@ macro_rules! ctts_h {
         });
     };
 }
-//@ prop=C03 tier=quick cost=60 fns="muxer::mp4::build_ctts_box" bound="3 offsets, all i32 values" unwind=42
+//@ prop=C03 tier=quick cost=200 fns="muxer::mp4::build_ctts_box" bound="3 offsets, all i32 values" unwind=42
 ctts_h!(c03_ctts_3, 3, 42);
 //@ prop=C03 tier=thorough cost=30 fns="muxer::mp4::build_ctts_box" bound="2 offsets, all i32 values" unwind=34
 ctts_h!(c03_ctts_2, 2, 34);
 
-//@ prop=C03 tier=quick cost=20 fns="muxer::mp4::build_stts_box,build_ctts_box" bound="empty tables" unwind=2
+//@ prop=C03 tier=quick cost=32 fns="muxer::mp4::build_stts_box,build_ctts_box" bound="empty tables" unwind=2
 h!(c03_rle_empty, 2, {
     let e: [u32; 0] = [];
     let s = snap::<16>(&mp4h::build_stts_box(&e));
@@ -225,7 +225,7 @@ impl std::io::Write for NullSink {
     }
 }
 
-//@ prop=C03 tier=quick cost=60 fns="muxer::mp4::Mp4Writer::write_video_sample_with_dts" bound="one queued VP9 sample at any dts0, second sample with any pts/dts (all u64), 2-byte payload" unwind=6
+//@ prop=C03 tier=quick cost=22 fns="muxer::mp4::Mp4Writer::write_video_sample_with_dts" bound="one queued VP9 sample at any dts0, second sample with any pts/dts (all u64), 2-byte payload" unwind=6
 h!(c03_writer_video_step, 6, {
     let dts0: u64 = kani::any();
     let pts0: u64 = kani::any();
@@ -258,7 +258,7 @@ h!(c03_writer_video_step, 6, {
     core::mem::forget((w, r));
 });
 
-//@ prop=C03 tier=quick cost=60 fns="muxer::mp4::Mp4Writer::write_audio_sample,is_valid_opus_packet" bound="one queued Opus sample at any pts0, second valid 2-byte Opus packet at any pts (all u64)" unwind=6
+//@ prop=C03 tier=quick cost=16 fns="muxer::mp4::Mp4Writer::write_audio_sample,is_valid_opus_packet" bound="one queued Opus sample at any pts0, second valid 2-byte Opus packet at any pts (all u64)" unwind=6
 h!(c03_writer_audio_step, 6, {
     use muxide::api::AudioCodec;
     use muxide::verif_hooks::mp4::Mp4AudioTrack;
@@ -298,7 +298,7 @@ fn within_half(tick: u64, t: f64) -> bool {
     x >= k - 0.5 && x <= k + 0.5
 }
 
-//@ prop=C03 tier=quick cost=120 fns="api::Muxer::write_video,Mp4Writer::write_video_sample_with_dts,extract_vp9_config" bound="first frame: any f64 pts (all bit patterns), concrete valid 10-byte VP9 keyframe; accepted => tick within 1/2 of t*90000 for t < 2^40 s" unwind=12 timeout=900
+//@ prop=C03 tier=quick cost=67 fns="api::Muxer::write_video,Mp4Writer::write_video_sample_with_dts,extract_vp9_config" bound="first frame: any f64 pts (all bit patterns), concrete valid 10-byte VP9 keyframe; accepted => tick within 1/2 of t*90000 for t < 2^40 s" unwind=12 timeout=900
 h!(c03_api_tick_first, 12, {
     let mut m = MuxerBuilder::new(NullSink).video(VideoCodec::Vp9, 64, 64, 30.0).build().unwrap();
     let t: f64 = kani::any();
@@ -352,7 +352,7 @@ fn fallback_body(fast_start: bool) {
     crate::vcover!(vlast.is_some() && alast.is_some() && vlast != alast, "tracks with different last deltas");
     core::mem::forget((w, r));
 }
-//@ prop=C03,C08 tier=quick cost=400 fns="Mp4Writer::finalize,finalize_standard,SampleTables::from_samples" bound="standard layout, 2 video + 2 audio samples, any remembered last deltas (Option<u32> each), any final pts < 2^31" unwind=7 stubs="build_moov_box(recording stand-in)" timeout=1400 mem=12
+//@ prop=C03,C08 tier=quick cost=197 fns="Mp4Writer::finalize,finalize_standard,SampleTables::from_samples" bound="standard layout, 2 video + 2 audio samples, any remembered last deltas (Option<u32> each), any final pts < 2^31" unwind=7 stubs="build_moov_box(recording stand-in)" timeout=1400 mem=12
 #[kani::proof]
 #[kani::unwind(7)]
 #[kani::stub(muxide::invariant_ppt::__assert_invariant_impl, crate::stubs::assert_invariant_stub)]
